@@ -845,17 +845,19 @@ def _run_task(task):
                     viol('compose', 'composed gate differs from the algebraic '
                          f'composition of its parts by {e2:.3g}', rep)
         if spec[0] == 'circ':
+            # product of the operations in the circuit's own iteration order (the
+            # order in which the circuit consumes its parameter vector)
             R = np.eye(dim, dtype=complex)
             off = 0
-            for gs, loc, ps in spec[2]:
-                gg = build(gs)
+            for op in g._circuit:
+                gg, loc = op.gate, tuple(op.location)
                 k = gg.num_params
                 Ug = np.asarray(gg.get_unitary(list(vals[off:off + k])).numpy)
                 off += k
                 R = place(Ug, gg.radixes, loc, rad) @ R
             cnt('compose')
             e2 = float(np.abs(R - U).max())
-            if not (e2 < 1e-9):
+            if off != np_ or not (e2 < 1e-9):
                 viol('compose', f'CircuitGate differs from the product of its '
                      f'operations by {e2:.3g}', rep)
         # ---- gradient
@@ -1159,7 +1161,7 @@ def run(ck: Check):
             bad_opt.add(outer_class(s))
         if r['meta'] is None or s in special_specs:
             continue
-        if r['bad'] & VALUE:
+        if any(b.split('[')[0].split('-raises')[0] in VALUE for b in r['bad']):
             ck.bump('inner_pool_excluded', outer_class(s))
             continue
         pool.append((s, r['meta'][0], r['meta'][1]))
